@@ -414,6 +414,29 @@ def _one_axis_tables(ck, F, ce, R):
         first, second = (slices[0], slices[1]) if ce.dominates(d0, d1) else (slices[1], slices[0])
         names["column"], names["row"] = first, second
     role = {v: k for k, v in names.items()}
+    if not caps and "new_column" in names and "new_row" in names:
+        # the result is assembled by a private helper: stop where the two new flags are handed to it
+        for bi, t in ce.calls():
+            c = ce.callee(t)
+            if c not in F.heads or (ce.callee_q(t) or "").endswith("next_state"):
+                continue
+            got = set()
+            for a in t["args"]:
+                pl = op_place(a)
+                if pl is None or place_proj(pl):
+                    continue
+                l = pl["l"]
+                for _ in range(4):
+                    if l in role:
+                        got.add(role[l])
+                        break
+                    rv = ce.def_rvalue(l)
+                    if rv is None or rv["k"] != "use" or op_place(rv["o"]) is None or place_proj(op_place(rv["o"])):
+                        break
+                    l = op_place(rv["o"])["l"]
+            if {"new_column", "new_row"} <= got:
+                caps = [bi]
+                break
     ok_anchor = len(caps) == 1 and all(k in names for k in ("absolute_column", "absolute_row", "new_column", "new_row")) and len(empties) >= 2
     ck.ob(R, "cycle_endpoint|one-axis anchors", ok_anchor, "cycle_endpoint: flags / is_empty tests / result allocation not found", ce.file, ce.line)
     if not ok_anchor:
@@ -531,80 +554,139 @@ def table_cycle(ck, F):
                 res.append(pl["l"])
     if not res:
         res = [l for l in ce.local_by_name("result")]
-    pushes = []
-    for bi, t in ce.calls():
-        q = ce.callee_q(t) or ""
-        if not t["args"]:
-            continue
-        rt = ce.ref_target(t["args"][0])
-        if rt is None or place_proj(rt) or rt["l"] not in res:
-            continue
-        last = q.rsplit("::", 1)[-1]
-        if last == "push":
-            from tabx import describe_operand
-            pushes.append(("push", describe_operand(ce, t["args"][1]), bi))
-        elif last == "extend":
-            # extend(result, map(iter(column), closure))
-            r = ce.trace(t["args"][1])
-            src = None
-            clos = None
-            if r["kind"] == "call" and (ce.callee_q(r["t"]) or "").endswith("Iterator::map"):
-                it = ce.trace(r["t"]["args"][0])
-                if it["kind"] == "call" and (ce.callee_q(it["t"]) or "").endswith("slice::iter"):
-                    rt2 = ce.ref_target(it["t"]["args"][0]) or {}
-                    src = ce.local_name(rt2.get("l", -1))
-                    if src is None:
-                        tr = ce.trace(it["t"]["args"][0])
-                        if tr["kind"] == "place":
-                            src = ce.local_name(ce.resolve_place(tr["place"], through_named=False)["l"])
-                cl = ce.trace(r["t"]["args"][1])
-                if cl["kind"] == "rv" and cl["rv"]["k"] == "agg" and cl["rv"].get("agg") == "closure":
-                    cb = F.body(cl["rv"]["def"])
-                    if cb is not None:
-                        clos = sorted({(cb.callee_q(tt) or "").rsplit("::", 1)[-1] for _, tt in cb.calls()})
-            pushes.append(("extend-map", (src, tuple(clos or [])), bi))
-        elif last == "extend_from_slice":
-            tr = ce.trace(t["args"][1])
-            src = None
-            if tr["kind"] == "place":
-                src = ce.local_name(ce.resolve_place(tr["place"])["l"])
-            elif tr["kind"] == "call":
-                src = "call"
-            rt2 = ce.ref_target(t["args"][1])
-            if rt2 is not None:
-                src = ce.local_name(rt2["l"]) or src
-            if src is None:
-                o = t["args"][1]
-                from mir import op_place
-                p = op_place(o)
-                src = ce.local_name(ce.resolve_place(p, through_named=False)["l"]) if p else None
-            pushes.append(("extend_from_slice", src, bi))
-        elif last in ("with_capacity", "new"):
-            pass
+    # when the assembly of the result was moved into a private helper that cycle_endpoint returns the result of, analyse the
+    # helper instead: its parameters take the roles of the arguments they receive
+    bd, col_n, row_n = ce, col_name, row_name
+    ret_locals = set(res) | {0}
+    if True:
+        for bi, t in ce.calls():
+            c = ce.callee(t)
+            hc = F.heads.get(c) if c else None
+            if hc is None or not F.has(c) or place_proj(t["dest"]) or t["dest"]["l"] not in ret_locals or hc.get("vis") in ("pub",) or hc.get("file") != ce.file:
+                continue
+            hb = F.body(c)
+            inv = {v: k for k, v in roles.items()}
+            pr = {}
+            for i, a in enumerate(t["args"], 1):
+                tr = ce.trace(a)
+                l = None
+                if tr["kind"] == "place":
+                    l = ce.resolve_place(tr["place"], through_named=False)["l"]
+                else:
+                    from mir import op_place as _opl2
+                    pl = _opl2(a)
+                    l = pl["l"] if pl is not None and not place_proj(pl) else None
+                    rt0 = ce.ref_target(a)
+                    if rt0 is not None and not place_proj(rt0):
+                        l = rt0["l"]
+                if l not in inv:
+                    # a plain copy of a role variable (`render(column, row, ..)` passes copies of the slices)
+                    from mir import op_place as _opl4
+                    pl4 = _opl4(a)
+                    l4 = pl4["l"] if pl4 is not None and not place_proj(pl4) else None
+                    for _ in range(5):
+                        if l4 is None or l4 in inv:
+                            break
+                        rv4 = ce.def_rvalue(l4)
+                        if rv4 is not None and rv4["k"] == "ref" and all(e[0] == "*" for e in place_proj(rv4["p"])):
+                            l4 = rv4["p"]["l"]          # a reborrow `&*column`
+                            continue
+                        if rv4 is None or rv4["k"] not in ("use", "cast") or _opl4(rv4["o"]) is None or place_proj(_opl4(rv4["o"])):
+                            l4 = None
+                            break
+                        l4 = _opl4(rv4["o"])["l"]
+                    if l4 in inv:
+                        l = l4
+                if l in inv:
+                    pr[inv[l]] = i
+            if "column" in pr and "row" in pr:
+                bd = hb
+                col_n, row_n = hb.local_name(pr["column"]), hb.local_name(pr["row"])
+                res = []
+                for bj, sj, st in hb.stmts():
+                    if st["p"]["l"] == 0 and not place_proj(st["p"]) and st["rv"]["k"] == "use":
+                        from mir import op_place as _opl3
+                        pl = _opl3(st["rv"]["o"])
+                        if pl is not None and not place_proj(pl):
+                            res.append(pl["l"])
+                break
+
+    def analyse(bd, res, col_name, row_name):
+        pushes = []
+        for bi, t in bd.calls():
+            q = bd.callee_q(t) or ""
+            if not t["args"]:
+                continue
+            rt = bd.ref_target(t["args"][0])
+            if rt is None or place_proj(rt) or rt["l"] not in res:
+                continue
+            last = q.rsplit("::", 1)[-1]
+            if last == "push":
+                from tabx import describe_operand
+                pushes.append(("push", describe_operand(bd, t["args"][1]), bi))
+            elif last == "extend":
+                # extend(result, map(iter(column), closure))
+                r = bd.trace(t["args"][1])
+                src = None
+                clos = None
+                if r["kind"] == "call" and (bd.callee_q(r["t"]) or "").endswith("Iterator::map"):
+                    it = bd.trace(r["t"]["args"][0])
+                    if it["kind"] == "call" and (bd.callee_q(it["t"]) or "").endswith("slice::iter"):
+                        rt2 = bd.ref_target(it["t"]["args"][0]) or {}
+                        src = bd.local_name(rt2.get("l", -1))
+                        if src is None:
+                            tr = bd.trace(it["t"]["args"][0])
+                            if tr["kind"] == "place":
+                                src = bd.local_name(bd.resolve_place(tr["place"], through_named=False)["l"])
+                    cl = bd.trace(r["t"]["args"][1])
+                    if cl["kind"] == "rv" and cl["rv"]["k"] == "agg" and cl["rv"].get("agg") == "closure":
+                        cb = F.body(cl["rv"]["def"])
+                        if cb is not None:
+                            clos = sorted({(cb.callee_q(tt) or "").rsplit("::", 1)[-1] for _, tt in cb.calls()})
+                pushes.append(("extend-map", (src, tuple(clos or [])), bi))
+            elif last == "extend_from_slice":
+                tr = bd.trace(t["args"][1])
+                src = None
+                if tr["kind"] == "place":
+                    src = bd.local_name(bd.resolve_place(tr["place"])["l"])
+                elif tr["kind"] == "call":
+                    src = "call"
+                rt2 = bd.ref_target(t["args"][1])
+                if rt2 is not None:
+                    src = bd.local_name(rt2["l"]) or src
+                if src is None:
+                    o = t["args"][1]
+                    from mir import op_place
+                    p = op_place(o)
+                    src = bd.local_name(bd.resolve_place(p, through_named=False)["l"]) if p else None
+                pushes.append(("extend_from_slice", src, bi))
+            elif last in ("with_capacity", "new"):
+                pass
+            else:
+                pushes.append((last, None, bi))
+        kinds = [(k, d) for k, d, _ in pushes]
+        for k, d, bi in pushes:
+            f, l = bd.loc(bi)
+            if k == "push":
+                ok = d == ("const", "'$'")
+                ck.ob(R, "cycle_endpoint|push|only-dollar", ok, "cycle_endpoint pushes %s into the result (only '$' markers may be added)" % (d,), f, l,
+                      sample={"append": "push", "value": str(d)})
+            elif k == "extend-map":
+                ok = d[0] == col_name and d[1] == ("to_ascii_uppercase",)
+                ck.ob(R, "cycle_endpoint|column-letters", ok, "column letters are rebuilt from %s through %s (only letter case may change)" % d, f, l,
+                      sample={"append": "extend(map)", "source": d[0], "map": list(d[1])})
+            elif k == "extend_from_slice":
+                ok = d == row_name
+                ck.ob(R, "cycle_endpoint|row-digits", ok, "row digits are appended from `%s`, not from the row slice" % d, f, l,
+                      sample={"append": "extend_from_slice", "source": d})
+            else:
+                ck.ob(R, "cycle_endpoint|other-append %s" % k, False, "unexpected mutation `%s` of the result" % k, f, l)
+        if not pushes:
+            # nothing appended in cycle_endpoint itself: the assembly was moved out of the function; say so instead of claiming a violation
+            ck.ob(R, "cycle_endpoint|append-sites", False, "the statements that append to cycle_endpoint's result were not found in the function (anchor lost)", bd.file, bd.line)
         else:
-            pushes.append((last, None, bi))
-    kinds = [(k, d) for k, d, _ in pushes]
-    for k, d, bi in pushes:
-        f, l = ce.loc(bi)
-        if k == "push":
-            ok = d == ("const", "'$'")
-            ck.ob(R, "cycle_endpoint|push|only-dollar", ok, "cycle_endpoint pushes %s into the result (only '$' markers may be added)" % (d,), f, l,
-                  sample={"append": "push", "value": str(d)})
-        elif k == "extend-map":
-            ok = d[0] == col_name and d[1] == ("to_ascii_uppercase",)
-            ck.ob(R, "cycle_endpoint|column-letters", ok, "column letters are rebuilt from %s through %s (only letter case may change)" % d, f, l,
-                  sample={"append": "extend(map)", "source": d[0], "map": list(d[1])})
-        elif k == "extend_from_slice":
-            ok = d == row_name
-            ck.ob(R, "cycle_endpoint|row-digits", ok, "row digits are appended from `%s`, not from the row slice" % d, f, l,
-                  sample={"append": "extend_from_slice", "source": d})
-        else:
-            ck.ob(R, "cycle_endpoint|other-append %s" % k, False, "unexpected mutation `%s` of the result" % k, f, l)
-    if not pushes:
-        # nothing appended in cycle_endpoint itself: the assembly was moved out of the function; say so instead of claiming a violation
-        ck.ob(R, "cycle_endpoint|append-sites", False, "the statements that append to cycle_endpoint's result were not found in the function (anchor lost)", ce.file, ce.line)
-    else:
-        ck.ob(R, "cycle_endpoint|append-sites", len(pushes) == 4, "expected 2 '$' pushes, the column and the row, found %s" % kinds, ce.file, ce.line)
+            ck.ob(R, "cycle_endpoint|append-sites", len(pushes) == 4, "expected 2 '$' pushes, the column and the row, found %s" % kinds, bd.file, bd.line)
+    analyse(bd, res, col_n, row_n)
 
 
 def char_units(ck, F, rule="CHAR-UNITS"):
